@@ -282,3 +282,34 @@ def check_label_consistency(P, R, f, rule="IDX.consistent"):
             ok = isinstance(i, ast.Name) and i.id == lp.label_var
             R.check(ok, rule, f.key, f"{src(s)} in loop over {lp.coll}", "addressed by the loop's class id", f"per-class container `{s.value.id}` is addressed with `{src(i)}` instead of the class id `{lp.label_var}`: classes are mixed up / the result depends on label values", s.lineno)
     return n
+
+
+def check_class_select(P, R, key, rule="IDX.class-select"):
+    """`_get_statistics_by_class_id(X, y, i)`: returns exactly the elements X[j] with y[j] == i.
+    Structural necessary conditions: the mask compares the labels with the class id by ==, the positions come from the
+    mask (np.where / nonzero / flatnonzero / enumerate-if), and the result indexes X with those positions."""
+    import ast
+
+    from ..dataflow import cone, get_defuse
+    from ..frontend import src, walk_no_nested
+
+    f = P.func(key)
+    R.analysed(f)
+    du = get_defuse(f, P)
+    xs, ys, cid = f.value_params[:3]
+    rets = [r for r in walk_no_nested(f.node) if isinstance(r, ast.Return) and r.value is not None]
+    n = 0
+    for r in rets:
+        c = cone(du, r.value, r, interproc=False)
+        cmps = [x for x in c.nodes if isinstance(x, ast.Compare) and len(x.ops) == 1]
+        rel = []
+        for x in cmps:
+            names = {y_.id for y_ in ast.walk(x) if isinstance(y_, ast.Name)}
+            if ys in names and cid in names:
+                rel.append(x)
+        n += 1
+        R.check(bool(rel) and all(isinstance(x.ops[0], ast.Eq) for x in rel), rule, key, f"selection `{src(rel[0]) if rel else '?'}`", f"{ys} == {cid}", f"the per-class selection does not compare the labels with the class id by == ({[src(x) for x in rel] or 'no comparison'}): a class receives other classes' statistics", r.lineno)
+        # the returned elements are elements of X
+        elems = [x for x in c.nodes if isinstance(x, ast.Subscript) and isinstance(x.value, ast.Name) and x.value.id == xs]
+        R.check(bool(elems) or any(isinstance(x, ast.Name) and x.id == xs for x in c.nodes), rule, key, f"result built from elements of {xs}", "", f"the result is not built from elements of {xs}", r.lineno)
+    return n
